@@ -36,10 +36,42 @@ harness!(arity_eval_relaxed, unwind = 8, |s| {
     core::mem::forget((rr, ex));
 });
 
+// eval_vec / eval_iter: one harness per (concrete) number of passed values — a symbolic length inside the
+// Vec / iterator construction did not finish in 15 min
+fn vec_case<S: Src>(s: &mut S, k: usize) {
+    let vals = [s.i32(), s.i32(), s.i32()];
+    let var = s.choice(2) as usize;
+    let ex = one_node(var);
+    let v: Vec<i32> = match k { 1 => vec![vals[0]], 2 => vec![vals[0], vals[1]], _ => vec![vals[0], vals[1], vals[2]] };
+    let r = ex.eval_vec(v);
+    assert!(r.is_err() == (k != 2), "C04 eval_vec with the wrong number of values is an error, with the right number it is not");
+    if let Ok(x) = &r { assert!(*x == vals[var], "C04 eval_vec binds the n-th value to the n-th variable"); }
+    core::mem::forget((r, ex));
+}
+fn iter_case<S: Src>(s: &mut S, k: usize) {
+    let vals = [s.i32(), s.i32(), s.i32()];
+    let var = s.choice(2) as usize;
+    let ex = one_node(var);
+    let r = match k {
+        1 => ex.eval_iter([vals[0]].into_iter()),
+        2 => ex.eval_iter([vals[0], vals[1]].into_iter()),
+        _ => ex.eval_iter([vals[0], vals[1], vals[2]].into_iter()),
+    };
+    assert!(r.is_err() == (k != 2), "C04 eval_iter with the wrong number of values is an error, with the right number it is not");
+    if let Ok(x) = &r { assert!(*x == vals[var], "C04 eval_iter binds the n-th value to the n-th variable"); }
+    core::mem::forget((r, ex));
+}
+harness!(arity_eval_vec_1, unwind = 8, |s| { vec_case(s, 1) });
+harness!(arity_eval_vec_2, unwind = 8, |s| { vec_case(s, 2) });
+harness!(arity_eval_vec_3, unwind = 8, |s| { vec_case(s, 3) });
+harness!(arity_eval_iter_1, unwind = 8, |s| { iter_case(s, 1) });
+harness!(arity_eval_iter_2, unwind = 8, |s| { iter_case(s, 2) });
+harness!(arity_eval_iter_3, unwind = 8, |s| { iter_case(s, 3) });
+
 #[derive(Clone, Debug)]
 pub struct DummyOps;
 impl exmex::MakeOperators<i32> for DummyOps {
     fn make<'a>() -> Vec<exmex::Operator<'a, i32>> { vec![] }
 }
 
-registry!("c04", arity_eval, arity_eval_relaxed);
+registry!("c04", arity_eval, arity_eval_relaxed, arity_eval_vec_1, arity_eval_vec_2, arity_eval_vec_3, arity_eval_iter_1, arity_eval_iter_2, arity_eval_iter_3);
